@@ -457,7 +457,7 @@ def _r28_owner(t):
     m = re.match(r"^(\w+)(?:\.|->)(?:expr\.inhomogeneous_term\(\)|divisor\(\)|expr|expression\(\))$", t)
     if m:
         return m.group(1)
-    m = re.match(r"^(\w+?)_(?:divisor|expr)$", t)
+    m = re.match(r"^(\w+?)_(?:divisor|div|expr)$", t)
     if m:
         return m.group(1)
     if re.match(r"^\w+$", t):
@@ -468,7 +468,7 @@ def _r28_owner(t):
 def r2_8(ctx):
     import re
     rid = "R2.8"
-    ctx.rule(rid, "a vector is never scaled by its own divisor: to add or subtract two points p = a/d1 and q = b/d2 the coordinates are brought to the common denominator d1*d2 by cross-multiplication, a*d2 and b*d1. In every `x.linear_combine(y, c1, c2, ..)` (x := c1*x + c2*y) whose factor c1 or c2 is the divisor of a named generator or point (`g.expr.inhomogeneous_term()`, `g->divisor()`, `point_divisor`), the factor that multiplies x is not x's own divisor and the factor that multiplies y is not y's own — the owner of x follows copies (`Generator new_g = g`, `Linear_Expression e = point_expr`)")
+    ctx.rule(rid, "a vector is never scaled by its own divisor: to add or subtract two points p = a/d1 and q = b/d2 the coordinates are brought to the common denominator d1*d2 by cross-multiplication, a*d2 and b*d1. In every `x.linear_combine(y, c1, c2, ..)` (x := c1*x + c2*y) and every scaled comparison `x.is_equal_to(y, c1, c2, ..)` (x*c1 == y*c2) whose factor c1 or c2 is the divisor of a named generator or point (`g.expr.inhomogeneous_term()`, `g->divisor()`, `point_divisor`), the factor that multiplies x is not x's own divisor and the factor that multiplies y is not y's own — the owner of x follows copies (`Generator new_g = g`, `Linear_Expression e = point_expr`)")
     fx = ctx.extract(c14_units())
     n = 0
     seen = set()
@@ -496,18 +496,20 @@ def r2_8(ctx):
                 o = alias.get(o) or (alias.get(o2) if o2 else None)
             return out
         for c in f.calls():
-            if c["k"] != "mcall" or f.call_name(c).lstrip("~") != "linear_combine":
+            if c["k"] != "mcall" or f.call_name(c).lstrip("~") not in ("linear_combine", "is_equal_to"):
                 continue
             args = f.call_args(c)
             obj = f.call_obj(c)
             if len(args) < 3 or obj is None:
                 continue
+            if f.call_name(c).lstrip("~") == "is_equal_to" and len(args) != 5:
+                continue      # only the scaled comparison x*c1 == y*c2 has factors
             xo = _r28_owner(f.text(obj))
             yo = _r28_owner(f.text(f.deref(args[0])))
             facts_ = []
             for which, a in (("c1", args[1]), ("c2", args[2])):
                 t = f.text(f.deref(a)).replace(" ", "")
-                if re.search(r"inhomogeneous_term\(\)\)?$|divisor\(\)\)?$|_divisor\)?$", t):
+                if re.search(r"inhomogeneous_term\(\)\)?$|divisor\(\)\)?$|_divisor\)?$|_div\)?$", t):
                     facts_.append((which, t, _r28_owner(t)))
             if not facts_ or xo is None or yo is None:
                 continue
@@ -524,7 +526,7 @@ def r2_8(ctx):
                 ctx.violation(rid, inst, f.where(c), "the factor %s = `%s` multiplies %s (`%s`) and is that operand's own divisor: the two scale factors are exchanged, the sum is a/d2 + b/d1" % bad)
             else:
                 ctx.ok(rid, inst, f.where(c))
-    ctx.floor(rid, n, 3, "linear_combine calls with a divisor among the factors")
+    ctx.floor(rid, n, 4, "cross-multiplications with a divisor among the factors")
 
 
 def run(ctx):
